@@ -104,6 +104,7 @@ CONTRACT(void, d_string_insert_c_array, (DString * baseString, size_t pos, const
 	CONTENT(g_k < DLEN(d), d->str[g_k] == g_old[g_k]))
 CONTRACT(char *, d_string_copy_substring, (DString * d, size_t start, size_t len), PRE_copy_substring, POST_copy_substring, __CPROVER_assigns())
 
+#ifndef DS_CONTRACTS_ONLY
 /* ---- harness helpers: the harness builds the memory SHAPE (objects of symbolic
  * size); the logical precondition is the contract's requires clause ---- */
 #ifdef UNIT_B
@@ -201,3 +202,4 @@ void h_copy_substring(void) {
 	CALLR(char *, d_string_copy_substring(d, start, len), PRE_copy_substring, POST_copy_substring)
 	REACH();
 }
+#endif /* DS_CONTRACTS_ONLY */
